@@ -1300,5 +1300,5 @@ def selftest():
 
 def subchecks(tier):
     return [
-        Sub("runs", body, strategy=cases, quick=220, thorough=4000, raising_is_failure=True, shrink_s=40),
+        Sub("runs", body, strategy=cases, quick=200, thorough=4000, raising_is_failure=True, shrink_s=40),
     ]
